@@ -101,11 +101,20 @@ def main():
         os.makedirs(dst, exist_ok=True)
         if src != dst:
             shutil.copy(patch, dst); shutil.copy(demo, dst)
+        first = None
+        old = os.path.join(dst, 'meta.json')
+        if os.path.exists(old):
+            try:
+                om = json.load(open(old))
+                first = om.get('first_eval') or om.get('checks', {}).get(a.pid)
+            except Exception:
+                first = None
         m = {'breaks': a.pid, 'summary': meta.get('summary'), 'file': meta.get('file'), 'needs': meta.get('needs'),
              'confirmed': {'demo_without_exit': out['demo_without'], 'demo_with_exit': out['demo_with'],
                            'baseline_60_pass_with_change': True, 'repo_head': head,
                            'ran': 'harness/seed_eval.py %s %s (scratch worktree, SC3_REPO)' % (a.pid, a.k)},
              'checks': out['checks']}
+        m['first_eval'] = first or out['checks'].get(a.pid)
         json.dump(m, open(os.path.join(dst, 'meta.json'), 'w'), indent=1)
     print(json.dumps({k: v for k, v in out.items() if k != 'author_meta'}, indent=1))
 
